@@ -10,8 +10,8 @@ import (
 const (
 	kConstruct  = "gabi.(*CredentialBuilder).ConstructCredential"
 	kProofSVer  = "gabi.(*ProofS).Verify"
-	kProveSig   = "gabi.(*Issuer).proveSignature"
-	kSignCommit = "gabi.(*Issuer).signCommitmentAndAttributes"
+	kProveSig   = "gabi.proveSignature"
+	kSignCommit = "gabi.signCommitmentAndAttributes"
 	kNewCB      = "gabi.NewCredentialBuilder"
 	cbD         = "<gabi.CredentialBuilder>"
 	ismD        = "<gabi.IssueSignatureMessage>"
@@ -44,7 +44,7 @@ func init() {
 								return false
 							}
 							ch, ok := c.Call.Args[2].(*ssa.Call)
-							if !ok || calleeName(ch) != "gabi.createChallenge" {
+							if !ok || !calleeIs(ch, "gabi.createChallenge") {
 								return false
 							}
 							ar := ch.Call.Args
@@ -130,7 +130,7 @@ func constructCredentialRule(P *Program, R *Report) {
 	}})
 	mp(P, R, rule, kConstruct+":witness-bound", "credential with a witness => NonrevIndex() of the new credential succeeded (the witness' e is one of the signed attributes)", fn, acc, &MustPass{Exempt: noWitness, Match: func(a Atom) bool {
 		c, idx := callAndResult(a.V)
-		return c != nil && calleeName(c) == "gabi.(*Credential).NonrevIndex" && idx == 1 && a.Want == Nil && desc(c.Call.Args[0]) == "new:gabi.Credential"
+		return c != nil && calleeIs(c, "gabi.(*Credential).NonrevIndex") && idx == 1 && a.Want == Nil && desc(c.Call.Args[0]) == "new:gabi.Credential"
 	}})
 	// NonrevIndex itself: succeeds only if some attribute equals the witness' E
 	if ni := mustFunc(P, R, rule, "gabi.(*Credential).NonrevIndex"); ni != nil {
@@ -360,7 +360,7 @@ func blindConventionRule(P *Program, R *Report) {
 		ok := false
 		allInstrs(fn, func(i ssa.Instruction) {
 			if mu, isMU := i.(*ssa.MapUpdate); isMU && desc(mu.Key) == "(arg#5[#i]+1)" {
-				if c, idx := callAndResult(mu.Value); c != nil && idx == 0 && calleeName(c) == "common.RandomBigInt" {
+				if c, idx := callAndResult(mu.Value); c != nil && idx == 0 && calleeIs(c, "common.RandomBigInt") {
 					a, _ := affineOf(c.Call.Args[0])
 					ok = a.String() == "Lm-1"
 				}
@@ -399,7 +399,7 @@ func blindConventionRule(P *Program, R *Report) {
 		okIdx, okNil := false, false
 		allInstrs(fn, func(i ssa.Instruction) {
 			if mu, isMU := i.(*ssa.MapUpdate); isMU && desc(mu.Key) == "(arg#3[#i]+1)" {
-				if c, idx := callAndResult(mu.Value); c != nil && idx == 0 && calleeName(c) == "common.RandomBigInt" {
+				if c, idx := callAndResult(mu.Value); c != nil && idx == 0 && calleeIs(c, "common.RandomBigInt") {
 					a, _ := affineOf(c.Call.Args[0])
 					okIdx = a.String() == "Lm-1"
 				}
@@ -416,7 +416,7 @@ func blindConventionRule(P *Program, R *Report) {
 		allInstrs(fn, func(i ssa.Instruction) {
 			if st, isSt := i.(*ssa.Store); isSt {
 				if ia, isIA := st.Addr.(*ssa.IndexAddr); isIA && desc(ia.Index) == "(arg#3[#i]+1)" {
-					if c, idx := callAndResult(st.Val); c != nil && idx == 0 && calleeName(c) == "common.RandomBigInt" {
+					if c, idx := callAndResult(st.Val); c != nil && idx == 0 && calleeIs(c, "common.RandomBigInt") {
 						okMs = true
 					}
 				}
